@@ -3,6 +3,8 @@
 //! boxed `Filter`s / `Subscribe`rs, the reference evaluator written from the documented
 //! semantics, and a recording leaf layer.
 
+pub mod universe;
+
 use proptest::prelude::*;
 use serde::{Deserialize, Serialize};
 use std::sync::{Arc, Mutex};
@@ -85,6 +87,9 @@ pub enum FExpr {
     Reload(Box<FExpr>),
     /// `Arc<dyn Filter>`
     Arc(Box<FExpr>),
+    /// custom filter: accepts all metadata, but its `event_enabled` rejects events whose
+    /// `cs` field has this value (C09 only; the reference `accepts` ignores the veto)
+    EventVeto(i64),
     And(Box<FExpr>, Box<FExpr>),
     Or(Box<FExpr>, Box<FExpr>),
     Not(Box<FExpr>),
@@ -105,7 +110,7 @@ impl FExpr {
             FExpr::FnHint { levels, targets, .. } => FExpr::StaticFn { levels: *levels, targets: *targets }.accepts(level, target, has_current),
             FExpr::DynHint { levels, .. } => levels >> (level - 1) & 1 == 1 && has_current,
             FExpr::EnvRaw(_) => panic!("EnvRaw has no reference semantics in vp-sub"),
-            FExpr::Opt(None) => true,
+            FExpr::Opt(None) | FExpr::EventVeto(_) => true,
             FExpr::Opt(Some(a)) | FExpr::Reload(a) | FExpr::Arc(a) => a.accepts(level, target, has_current),
             FExpr::And(a, b) => a.accepts(level, target, has_current) && b.accepts(level, target, has_current),
             FExpr::Or(a, b) => a.accepts(level, target, has_current) || b.accepts(level, target, has_current),
@@ -131,6 +136,7 @@ impl FExpr {
             FExpr::DynHint { .. } => out.push("dynfn_hint"),
             FExpr::EnvRaw(_) => out.push("env_raw"),
             FExpr::Opt(None) => out.push("opt_none"),
+            FExpr::EventVeto(_) => out.push("event_veto"),
             FExpr::Opt(Some(a)) => {
                 out.push("opt");
                 a.leaf_kinds(out)
@@ -190,6 +196,7 @@ pub fn build_filter(f: &FExpr) -> BF {
         }
         FExpr::EnvRaw(d) => Box::new(EnvFilter::new(d)),
         FExpr::Opt(None) => Box::new(None::<BF>),
+        FExpr::EventVeto(cs) => Box::new(EventVetoFilter(*cs)),
         FExpr::Opt(Some(a)) => Box::new(Some(build_filter(a))),
         FExpr::Reload(a) => Box::new(tracing_subscriber::reload::Subscriber::new(build_filter(a)).0),
         FExpr::Arc(a) => {
@@ -199,6 +206,18 @@ pub fn build_filter(f: &FExpr) -> BF {
         FExpr::And(a, b) => Box::new(build_filter(a).and(build_filter(b))),
         FExpr::Or(a, b) => Box::new(build_filter(a).or(build_filter(b))),
         FExpr::Not(a) => Box::new(build_filter(a).not()),
+    }
+}
+
+pub struct EventVetoFilter(pub i64);
+impl<S> Filter<S> for EventVetoFilter {
+    fn enabled(&self, _: &Metadata<'_>, _: &Context<'_, S>) -> bool {
+        true
+    }
+    fn event_enabled(&self, e: &Event<'_>, _: &Context<'_, S>) -> bool {
+        let mut v = CsVisitor(-1);
+        e.record(&mut v);
+        v.0 != self.0
     }
 }
 
@@ -334,6 +353,8 @@ pub enum LKind {
 }
 #[derive(Clone, Debug)]
 pub struct LCall {
+    /// global order stamp (one counter per process)
+    pub seq: u64,
     pub kind: LKind,
     pub thread: u8,
     pub id: u64,
@@ -346,6 +367,10 @@ pub struct LCall {
     pub scope: Vec<u64>,
 }
 pub type LeafLog = Arc<Mutex<Vec<LCall>>>;
+pub static SEQ: std::sync::atomic::AtomicU64 = std::sync::atomic::AtomicU64::new(0);
+pub fn next_seq() -> u64 {
+    SEQ.fetch_add(1, std::sync::atomic::Ordering::SeqCst)
+}
 
 pub struct CsVisitor(pub i64);
 impl tracing_core::field::Visit for CsVisitor {
@@ -372,6 +397,7 @@ impl RecLeaf {
     }
     fn call<C: tracing_core::Collect + for<'a> LookupSpan<'a>>(&self, kind: LKind, id: u64, ctx: &Context<'_, C>) -> LCall {
         LCall {
+            seq: next_seq(),
             kind,
             thread: vp_rec::tag(),
             id,
@@ -390,12 +416,12 @@ impl RecLeaf {
 impl<C: tracing_core::Collect + for<'a> LookupSpan<'a>> Subscribe<C> for RecLeaf {
     fn on_register_dispatch(&self, _: &tracing_core::Dispatch) {
         if self.verbose {
-            self.push(LCall { kind: LKind::RegisterDispatch, thread: vp_rec::tag(), id: 0, id2: 0, cs: -1, level: 0, target: String::new(), current: None, scope: vec![] });
+            self.push(LCall { seq: next_seq(), kind: LKind::RegisterDispatch, thread: vp_rec::tag(), id: 0, id2: 0, cs: -1, level: 0, target: String::new(), current: None, scope: vec![] });
         }
     }
     fn register_callsite(&self, m: &'static Metadata<'static>) -> tracing_core::collect::Interest {
         if self.verbose {
-            self.push(LCall { kind: LKind::RegisterCallsite, thread: vp_rec::tag(), id: 0, id2: 0, cs: -1, level: vp_rec::rank(m.level()), target: m.target().to_string(), current: None, scope: vec![] });
+            self.push(LCall { seq: next_seq(), kind: LKind::RegisterCallsite, thread: vp_rec::tag(), id: 0, id2: 0, cs: -1, level: vp_rec::rank(m.level()), target: m.target().to_string(), current: None, scope: vec![] });
         }
         if self.veto_level.is_some() {
             tracing_core::collect::Interest::sometimes()
@@ -570,4 +596,83 @@ impl Node {
 
 pub fn level_filter_of(r: u8) -> LevelFilter {
     vp_rec::filter_of_rank(r)
+}
+
+
+/// Recording layer for collectors that are not span registries (no context lookups).
+pub struct Rec9 {
+    pub log: LeafLog,
+    pub veto_cs: Option<i64>,
+    pub veto_level: Option<u8>,
+}
+impl Rec9 {
+    fn mk(&self, kind: LKind, id: u64) -> LCall {
+        LCall { seq: next_seq(), kind, thread: vp_rec::tag(), id, id2: 0, cs: -1, level: 0, target: String::new(), current: None, scope: vec![] }
+    }
+    fn push(&self, c: LCall) {
+        self.log.lock().unwrap().push(c)
+    }
+}
+impl<C: tracing_core::Collect> Subscribe<C> for Rec9 {
+    fn on_register_dispatch(&self, _: &tracing_core::Dispatch) {
+        self.push(self.mk(LKind::RegisterDispatch, 0));
+    }
+    fn register_callsite(&self, m: &'static Metadata<'static>) -> tracing_core::collect::Interest {
+        let mut c = self.mk(LKind::RegisterCallsite, 0);
+        c.level = vp_rec::rank(m.level());
+        c.target = m.target().to_string();
+        self.push(c);
+        tracing_core::collect::Interest::sometimes()
+    }
+    fn enabled(&self, m: &Metadata<'_>, _: Context<'_, C>) -> bool {
+        let mut c = self.mk(LKind::Enabled, 0);
+        c.level = vp_rec::rank(m.level());
+        c.target = m.target().to_string();
+        self.push(c);
+        self.veto_level != Some(vp_rec::rank(m.level()))
+    }
+    fn event_enabled(&self, e: &Event<'_>, _: Context<'_, C>) -> bool {
+        let mut v = CsVisitor(-1);
+        e.record(&mut v);
+        let mut c = self.mk(LKind::EventEnabled, 0);
+        c.cs = v.0;
+        self.push(c);
+        self.veto_cs != Some(v.0) || v.0 < 0
+    }
+    fn on_new_span(&self, attrs: &span::Attributes<'_>, id: &span::Id, _: Context<'_, C>) {
+        let mut v = CsVisitor(-1);
+        attrs.record(&mut v);
+        let mut c = self.mk(LKind::NewSpan, id.into_u64());
+        c.cs = v.0;
+        self.push(c);
+    }
+    fn on_record(&self, id: &span::Id, _: &span::Record<'_>, _: Context<'_, C>) {
+        self.push(self.mk(LKind::Record, id.into_u64()));
+    }
+    fn on_follows_from(&self, id: &span::Id, f: &span::Id, _: Context<'_, C>) {
+        let mut c = self.mk(LKind::FollowsFrom, id.into_u64());
+        c.id2 = f.into_u64();
+        self.push(c);
+    }
+    fn on_event(&self, e: &Event<'_>, _: Context<'_, C>) {
+        let mut v = CsVisitor(-1);
+        e.record(&mut v);
+        let mut c = self.mk(LKind::Event, 0);
+        c.cs = v.0;
+        self.push(c);
+    }
+    fn on_enter(&self, id: &span::Id, _: Context<'_, C>) {
+        self.push(self.mk(LKind::Enter, id.into_u64()));
+    }
+    fn on_exit(&self, id: &span::Id, _: Context<'_, C>) {
+        self.push(self.mk(LKind::Exit, id.into_u64()));
+    }
+    fn on_close(&self, id: span::Id, _: Context<'_, C>) {
+        self.push(self.mk(LKind::Close, id.into_u64()));
+    }
+    fn on_id_change(&self, old: &span::Id, new: &span::Id, _: Context<'_, C>) {
+        let mut c = self.mk(LKind::IdChange, old.into_u64());
+        c.id2 = new.into_u64();
+        self.push(c);
+    }
 }
